@@ -5,6 +5,7 @@ import SV.TxCache.SelProofs
 import SV.TxCache.OrderProofs
 import SV.TxCache.ReachableProofs
 import SV.GenProofs.TxSelection
+import SV.TxCache.SessionWrapper
 namespace SV.Props.C02
 open SV SV.TxCache
 
@@ -78,5 +79,15 @@ theorem source_balance_test_is_the_models (consumed fee balance : Nat) (d1 d2 : 
 theorem source_balance_test_reads (_ : Unit) :
     Gen.feeExceedsBalance_leaves = ["tx.Fee : Int", "fee == nil : Bool", "tx.FeePayer : Int", "sessionWrapper.getAccountRecord(feePayer) : Int",
       "feePayerRecord.consumedBalance : Int", "feePayerRecord.initialBalance : Int"] := GenProofs.feeExceedsBalance_leaves
+
+/-- over the memoising session wrapper and ANY session oracle: the balance FIRST reported for the fee payer covers this fee
+    on top of everything earlier transactions of the result committed to that account -/
+theorem balances_cover_for_any_session_oracle (v : Variant) (pick : List HItem → Option (HItem × List HItem))
+    (o : SW.Oracle) (guard : Tx → Bool) (q : SelParams) (heap : List HItem) (fuel : Nat) :
+    let out := (SW.selectLoopW v pick o guard q fuel heap SW.W.empty 0 []).1
+    ∀ i (hi : i < out.length), committed (out.take i) (out[i]).payer + (out[i]).fee ≤
+      (match (SW.finalW v pick o guard q fuel heap SW.W.empty 0 []).queryIndex (out[i]).payer with
+        | some k => ((o k (out[i]).payer).map (·.2)).getD 0
+        | none => 0) := SW.selectLoopW_balances_cover v pick o guard q heap fuel
 
 end SV.Props.C02
